@@ -103,6 +103,7 @@ namespace detail
 		}
 	};
 
+#	if GLM_ARCH & GLM_ARCH_SSE41_BIT // _mm_min_epi32, _mm_max_epu32, ... are SSE4.1: without it the generic code is used
 	template<qualifier Q>
 	struct compute_min_vector<4, int, Q, true>
 	{
@@ -124,6 +125,7 @@ namespace detail
 			return result;
 		}
 	};
+#	endif//GLM_ARCH & GLM_ARCH_SSE41_BIT
 
 	template<qualifier Q>
 	struct compute_max_vector<4, float, Q, true>
@@ -137,6 +139,7 @@ namespace detail
 		}
 	};
 
+#	if GLM_ARCH & GLM_ARCH_SSE41_BIT // _mm_min_epi32, _mm_max_epu32, ... are SSE4.1: without it the generic code is used
 	template<qualifier Q>
 	struct compute_max_vector<4, int, Q, true>
 	{
@@ -158,6 +161,7 @@ namespace detail
 			return result;
 		}
 	};
+#	endif//GLM_ARCH & GLM_ARCH_SSE41_BIT
 
 	template<qualifier Q>
 	struct compute_clamp_vector<4, float, Q, true>
@@ -171,6 +175,7 @@ namespace detail
 		}
 	};
 
+#	if GLM_ARCH & GLM_ARCH_SSE41_BIT // _mm_min_epi32, _mm_max_epu32, ... are SSE4.1: without it the generic code is used
 	template<qualifier Q>
 	struct compute_clamp_vector<4, int, Q, true>
 	{
@@ -192,6 +197,7 @@ namespace detail
 			return result;
 		}
 	};
+#	endif//GLM_ARCH & GLM_ARCH_SSE41_BIT
 
 	template<qualifier Q>
 	struct compute_mix_vector<4, float, bool, Q, true>
